@@ -9,7 +9,9 @@ TInit == PInit /\ l = 1 /\ viol = <<>> /\ seen = {}
 
 Fresh == Violated \ seen
 Recorded ==
-    IF l > 1 /\ Fresh # {}
+    \* (at most 300 records per trace file: the state carries the list, so an unbounded list would
+    \* make validation quadratic when a defect fires in most runs)
+    IF l > 1 /\ Fresh # {} /\ Len(viol) < 300
     THEN Append(viol, [run |-> Trace[l-1].run, seq |-> Trace[l-1].seq, names |-> Fresh, l |-> l - 1])
     ELSE viol
 
